@@ -42,7 +42,7 @@ def anchor_names():
         return _ANCHORS
     here = os.path.dirname(os.path.abspath(__file__))
     names = set()
-    files = [os.path.join(here, f) for f in os.listdir(here) if f.endswith('.py') and f not in ('variants.py', 'normalize.py')]
+    files = [os.path.join(here, f) for f in os.listdir(here) if f.endswith('.py') and f != 'normalize.py' and not f.startswith('variants')]
     pd = os.path.join(here, 'props')
     files += [os.path.join(pd, f) for f in os.listdir(pd) if f.endswith('.py')]
     for p in files:
@@ -640,6 +640,82 @@ class Inliner(object):
         return self.count
 
 
+# ---------------------------------------------------------------------------------------------- loop unrolling
+class Unroll(ast.NodeTransformer):
+    """``for x in (a, b): body``  ->  ``x = a; body[x := a]; x = b; body[x := b]`` for a loop over a short literal
+    tuple / list of *variables* (names or attribute chains; loops over constants -- slot-name tables -- are kept).
+
+    Exactly the iterations the loop makes, in order.  Attribute elements are evaluated once, up front and in order
+    (as the tuple display does) into temporaries; plain names are read where the copy uses them, which is the same
+    value because the body may not re-bind them.  Not applied when the body breaks / continues, defines functions
+    or re-binds the loop variable or a name an element reads."""
+
+    MAX_ELTS, MAX_BODY = 4, 10
+
+    def __init__(self):
+        self.n = 0
+
+    @staticmethod
+    def _loop_jumps(body):
+        todo = list(body)
+        while todo:
+            n = todo.pop()
+            if isinstance(n, (ast.Break, ast.Continue)):
+                return True
+            if isinstance(n, (ast.For, ast.While, ast.AsyncFor)):
+                todo.extend(n.orelse)      # break/continue in a nested loop's body belong to that loop
+                continue
+            if isinstance(n, ast.stmt) or isinstance(n, ast.ExceptHandler):
+                todo.extend(c for c in ast.iter_child_nodes(n) if isinstance(c, (ast.stmt, ast.ExceptHandler)))
+        return False
+
+    def visit_For(self, node):
+        self.generic_visit(node)
+        it = node.iter
+        if node.orelse or not isinstance(node.target, ast.Name) or not isinstance(it, (ast.Tuple, ast.List)):
+            return node
+        if not (1 <= len(it.elts) <= self.MAX_ELTS) or not all(isinstance(e, (ast.Name, ast.Attribute)) and _simple_arg(e)
+                                                                for e in it.elts):
+            return node
+        x = node.target.id
+        body = node.body
+        if sum(1 for s in body for n in ast.walk(s) if isinstance(n, ast.stmt)) > self.MAX_BODY:
+            return node
+        if self._loop_jumps(body) or _contains(body, (ast.FunctionDef, ast.AsyncFunctionDef, ast.ClassDef, ast.Lambda, ast.Yield,
+                                                        ast.YieldFrom, ast.Await, ast.Global, ast.Nonlocal), stop=()):
+            return node
+        stored = _stored_names(body)
+        for s in body:
+            for n in ast.walk(s):
+                if isinstance(n, ast.comprehension):
+                    stored |= set(t.id for t in ast.walk(n.target) if isinstance(t, ast.Name))
+                if isinstance(n, ast.Call) and isinstance(n.func, ast.Name) and n.func.id in ('locals', 'vars', 'eval', 'exec'):
+                    return node
+        roots = set()
+        for e in it.elts:
+            r = e
+            while isinstance(r, ast.Attribute):
+                r = r.value
+            roots.add(r.id)
+        if x in stored or x in roots or (roots & stored):
+            return node
+        pre, elts = [], []
+        for e in it.elts:
+            if isinstance(e, ast.Attribute):
+                tmp = '_unr%d_%s' % (self.n, e.attr)
+                self.n += 1
+                pre.append(ast.copy_location(ast.Assign(targets=[ast.Name(id=tmp, ctx=ast.Store())], value=e), node))
+                elts.append(ast.copy_location(ast.Name(id=tmp, ctx=ast.Load()), e))
+            else:
+                elts.append(e)
+        out = list(pre)
+        for e in elts:
+            out.append(ast.copy_location(ast.Assign(targets=[ast.Name(id=x, ctx=ast.Store())], value=copy.deepcopy(e)), node))
+            sub = _Subst({x: e}, {})
+            out.extend(sub.visit(copy.deepcopy(s)) for s in body)
+        return out
+
+
 def normalize_tree(tree):
     """Stage 1 (intra-module).  Returns (tree, number of inlined calls)."""
     tree = Canon().visit(tree)
@@ -647,6 +723,7 @@ def normalize_tree(tree):
     n = inl.run()
     if n:
         tree = Canon().visit(tree)
+    tree = Unroll().visit(tree)
     ast.fix_missing_locations(tree)
     return tree, n
 
